@@ -13,6 +13,7 @@ import (
 	"github.com/33cn/chain33/client/api"
 	"github.com/33cn/chain33/common"
 	"github.com/33cn/chain33/common/difficulty"
+	"github.com/33cn/chain33/common/merkle"
 	"github.com/33cn/chain33/types"
 	"github.com/33cn/chain33/util"
 )
@@ -160,6 +161,14 @@ func (chain *BlockChain) maybeAcceptBlock(broadcast bool, block *types.BlockDeta
 		return nil, false, types.ErrBlockHeightNoMatch
 	}
 
+	// the block hash commits to the header only, and the header to the transaction root: make sure
+	// the body of a peer's block belongs to its header before it is stored and indexed under that
+	// hash, otherwise a different body behind a valid header would keep the real block out
+	if pid != "self" && !chain.checkTxRoot(block.Block) {
+		chainlog.Error("maybeAcceptBlock", "height", blockHeight, "err", types.ErrCheckTxHash, "pid", pid)
+		return nil, false, types.ErrCheckTxHash
+	}
+
 	//将此block存储到db中，方便后面blockchain重组时使用，加入到主链saveblock时通过hash重新覆盖即可
 	sync := true
 	if atomic.LoadInt32(&chain.isbatchsync) == 0 {
@@ -190,6 +199,22 @@ func (chain *BlockChain) maybeAcceptBlock(broadcast bool, block *types.BlockDeta
 	}
 
 	return block, isMainChain, nil
+}
+
+// checkTxRoot recomputes the transaction root of a block the way PreExecBlock does
+func (chain *BlockChain) checkTxRoot(block *types.Block) bool {
+	cfg := chain.client.GetConfig()
+	height := block.Height
+	if cfg.IsPara() {
+		height = block.MainHeight
+	}
+	var txHash []byte
+	if !cfg.IsFork(height, "ForkRootHash") {
+		txHash = merkle.CalcMerkleRootCache(types.TxsToCache(block.Txs))
+	} else {
+		txHash = merkle.CalcMerkleRoot(cfg, height, types.TransactionSort(block.Txs))
+	}
+	return bytes.Equal(txHash, block.TxHash)
 }
 
 // 将block添加到主链中
